@@ -1266,7 +1266,10 @@ static void union_initializer(Token **rest, Token *tok, Initializer *init) {
 //             | struct-initializer | union-initializer
 //             | assign
 static void initializer2(Token **rest, Token *tok, Initializer *init) {
-  if (init->ty->kind == TY_ARRAY && tok->kind == TK_STR) {
+  if (init->ty->kind == TY_ARRAY && tok->kind == TK_STR &&
+      is_integer(init->ty->base)) {
+    if (init->ty->base->size != tok->ty->base->size)
+      error_tok(tok, "array initialized from a string literal of a different element width");
     string_initializer(rest, tok, init);
     return;
   }
